@@ -1,4 +1,4 @@
-// finding=F76 property=C05 status=known kind=exec-glsl
+// finding=F76 property=C05 status=fixed kind=exec-glsl
 // GLSL folds binary operators other than + - * / to 0 when both operands are constants or lets of constants: `if (C & l) != 1` becomes `if (0)` (ill-typed, wrong value), `(l & C)` becomes 0u
 // expect 0,0[0] = 1
 @group(0) @binding(0) var<storage,read_write> o: array<u32,16>;
